@@ -2941,6 +2941,52 @@ def m_td_neg(ex, m, args, callee):
     return n_neg(val(args[0]))
 
 
+DAY_NS = 86400 * 10 ** 9
+
+
+@model(r'^DateTime::date_naive$')
+def m_dt_date_naive(ex, m, args, callee):
+    """the calendar day (a day number) of the instant in its own zone"""
+    d = val(args[0])
+    local = n_add(d.fields[0], zone_offset_ns(ex, d.fields[1], d.fields[0]))
+    return Struct('NaiveDate', [zint(local) / DAY_NS if is_z3(local) else int(local) // DAY_NS])
+
+
+@model(r'^NaiveDate::and_time$')
+def m_naive_and_time(ex, m, args, callee):
+    date, time = val(args[0]), val(args[1])
+    if not (isinstance(date, Struct) and date.name == 'NaiveDate' and isinstance(time, Struct) and time.name == 'NaiveTime'):
+        return Opaque('NaiveDateTime')
+    return Struct('NaiveDateTime', [n_add(n_mul(date.fields[0], DAY_NS), time.fields[0])])
+
+
+@model(r'^DateTime::with_time$')
+def m_dt_with_time(ex, m, args, callee):
+    """same calendar day in the value's zone, the given time of day"""
+    d, time = val(args[0]), val(args[1])
+    if not (isinstance(time, Struct) and time.name == 'NaiveTime'):
+        return Struct('LocalResult', [some(ex, mk_datetime(ex.fresh('instant', 'Int'), d.fields[1]))])
+    off = zone_offset_ns(ex, d.fields[1], d.fields[0])
+    local = n_add(d.fields[0], off)
+    day = zint(local) / DAY_NS if is_z3(local) else int(local) // DAY_NS
+    naive = n_add(n_mul(day, DAY_NS), time.fields[0])
+    zone = dup(d.fields[1])
+    if isinstance(zone, Struct) and zone.name == 'FixedOffset':
+        return Struct('LocalResult', [some(ex, mk_datetime(n_sub(naive, off), zone))])
+    t = ex.fresh('instant', 'Int')
+    ex.assume(n_eq(n_add(t, zone_offset_ns(ex, zone, t)), naive))
+    return Struct('LocalResult', [some(ex, mk_datetime(t, zone))])
+
+
+@model(r'^LocalResult::unwrap$')
+def m_local_result_unwrap(ex, m, args, callee):
+    o = val(args[0]).fields[0]
+    o = deref_all(o)
+    if o.variant == 0:
+        ex.panic('LocalResult::unwrap on None')
+    return o.fields[0]
+
+
 @model(r'^FixedOffset::(east_opt|west_opt)$')
 def m_fixed_offset(ex, m, args, callee):
     s = args[0]
